@@ -177,6 +177,24 @@ theorem C19_acts (cmd : CliCmd) (h : Bool) (sc : Option CanaryStatus) (ann : SMa
     simp [C19.already] at hal <;> simp [cliRun, patchOf, hal]
   all_goals first | (split <;> simp_all) | (intro hn; simp [hn] at hal)
 
+/-- the specification predicate evaluated on the implementation (`Spec.C19.mustAct`) is the hypothesis
+of `C19_acts`: such a command is never refused — e.g. `canary unpause` on a canary the controller
+paused by itself, where the ExtendedDaemonSet carries no canary-paused annotation at all. -/
+theorem C19_acts_when_applicable (cmd : CliCmd) (h : Bool) (sc : Option CanaryStatus) (ann : SMap)
+    (hm : mustAct cmd h sc ann = true) : ∀ why, cliRun cmd h sc ann ≠ .refused why := by
+  have hal : alreadyInState cmd sc ann = C19.already cmd sc ann := by
+    cases cmd <;> rfl
+  simp only [mustAct, Bool.and_eq_true, Bool.not_eq_true'] at hm
+  obtain ⟨hpre, hna⟩ := hm
+  rw [hal] at hna
+  obtain ⟨h1, h2⟩ := C19_acts cmd h sc ann hpre hna
+  intro why
+  by_cases hc : cmd = .canaryFail
+  · obtain ⟨cs, _, e⟩ := h2 hc; rw [e]; simp
+  · rw [h1 hc]; simp
+
+example : mustAct .canaryUnpause true (some { replicaSet := "foo-b", nodes := ["n1"] }) [] = true := by decide
+
 /-- a patch is produced exactly when the precondition holds and the state is not already there. -/
 theorem C19_patch_iff (cmd : CliCmd) (h : Bool) (sc : Option CanaryStatus) (ann : SMap) :
     (∃ ann', cliRun cmd h sc ann = .patchAnnotations ann') ↔
